@@ -304,6 +304,12 @@ def paths_imply(fm: FuncModel, start: N, target: N, goal, translator, names_kill
                 # a Boolean flag set on the path is a fact until the flag is written again
                 fl = logic.B("T:" + n.ast.targets[0].id)
                 facts.append((fl if n.ast.value.value else logic.Not(fl), {n.ast.targets[0].id}))
+            elif n.kind == "stmt" and isinstance(n.ast, ast.Assign) and len(n.ast.targets) == 1 and isinstance(n.ast.targets[0], ast.Name) \
+                    and (isinstance(n.ast.value, (ast.Constant, ast.List, ast.Dict, ast.Set, ast.Tuple, ast.ListComp, ast.SetComp, ast.DictComp))):
+                # `x = None` / `x = []` on the path decides later `x is None` tests
+                fl = logic.B("none:" + n.ast.targets[0].id)
+                isnone = isinstance(n.ast.value, ast.Constant) and n.ast.value.value is None
+                facts.append((fl if isnone else logic.Not(fl), {n.ast.targets[0].id}))
             if n.kind == "branch" and n.test is not None:
                 if canon:
                     tnode = fm.cfg.nodes[next(iter(fm.cfg.g.predecessors(n.id)))]
